@@ -39,6 +39,7 @@ class Ctx:
         self.stats = {'sqrt_checks': 0, 'zero_checks': 0, 'lookups': 0}
         self.fresh = 0
         self.notes = []
+        self.int_range = False        # record ('int-range', lo <= r <= hi) for integer-dtype arithmetic on integer / real valued terms (which do not wrap by themselves)
 
 
 CTX = Ctx()
@@ -551,14 +552,15 @@ def i_op(op, x, y, ld):
         if (z3.is_arith(a) and a.is_real()) or (z3.is_arith(b) and b.is_real()):
             a = z3.ToReal(a) if a.is_int() else a
             b = z3.ToReal(b) if b.is_int() else b
-        if op == 'add':
-            return a + b
-        if op == 'sub':
-            return a - b
-        if op == 'mul':
-            if not xs and int(x) == 0 or not ys and int(y) == 0:
+        if op in ('add', 'sub', 'mul'):
+            if op == 'mul' and (not xs and int(x) == 0 or not ys and int(y) == 0):
                 return 0
-            return a * b
+            r = a + b if op == 'add' else (a - b if op == 'sub' else a * b)
+            if CTX.int_range and w < 64:
+                # mathematical integers stand in for machine words here: the result is only right where it fits the dtype
+                lo, hi = (-(1 << (w - 1)), (1 << (w - 1)) - 1) if signed else (0, (1 << w) - 1)
+                CTX.side.append((f'int-range-{ld}', z3.And(r >= lo, r <= hi)))
+            return r
         if op in ('lt', 'le', 'gt', 'ge', 'eq', 'ne'):
             return {'lt': a < b, 'le': a <= b, 'gt': a > b, 'ge': a >= b, 'eq': a == b, 'ne': a != b}[op]
         if op == 'floordiv' and not ys:
